@@ -59,8 +59,9 @@ Example overdraft_example :
 Proof. vm_compute. split; [discriminate|split; reflexivity]. Qed.
 
 (* ---------- what the correspondence check relies on ---------- *)
-(* The run-time oracle p_c05 (ChkX.v, clauses 5-7: the block of the call at every depth; entry point, callee, sender and funds as the tree
-   prescribes; attached funds have arrived before the callee runs) accepts the model's own run of EVERY well-formed scenario, in every case
+(* The run-time oracle p_c05 (ChkX.v, clauses 5-8: the block of the call at every depth; entry point, callee, sender and funds as the tree
+   prescribes; attached funds have arrived before the callee runs; a failed first sub-message has given its funds back when
+   its failure handler runs) accepts the model's own run of EVERY well-formed scenario, in every case
    environment: an implementation that behaves exactly like the model is never flagged, and "agrees with the model"
    implies "satisfies the oracle's reading of C05".
    Premise [wf_scenario] (ExecOracle.v) is what the generator guarantees (harness/exec_common/src/gen.rs): in every
